@@ -14,33 +14,9 @@
 //@struct file=poly-commit/src/ipa_pc/data_structures.rs name=CommitterKey
 pub type VerifierKey = CommitterKey;
 // the i-th transparent generator: hash-to-curve by try-and-increment over the byte strings PROTOCOL_NAME || i and PROTOCOL_NAME || i || j
-// ---- trusted environment: digest, from_random_bytes, cofactor multiplication, byte-string plumbing ----
-pub uninterp spec fn pname() -> Seq<u8>;                       // Self::PROTOCOL_NAME
-pub uninterp spec fn le8(x: u64) -> Seq<u8>;                   // u64::to_le_bytes
-pub uninterp spec fn dig(b: Seq<u8>) -> Seq<u8>;               // D::digest
-pub uninterp spec fn frb(b: Seq<u8>) -> Option<G1Affine>;      // G::from_random_bytes
-pub uninterp spec fn cof(g: G1Affine) -> AS;                   // mul_by_cofactor_to_group
-#[verifier::external_body] pub fn protocol_name() -> (r: Vec<u8>) ensures r@ == pname() { unimplemented!() }
-#[verifier::external_body] pub fn u64_to_le_bytes(x: u64) -> (r: Vec<u8>) ensures r@ == le8(x) { unimplemented!() }
-#[verifier::external_body] pub fn bytes_concat2(a: Vec<u8>, b: &Vec<u8>) -> (r: Vec<u8>) ensures r@ == a@ + b@ { unimplemented!() }        // [a, b].concat()
-#[verifier::external_body] pub fn bytes_extend(v: &mut Vec<u8>, b: &Vec<u8>) ensures final(v)@ == old(v)@ + b@ { unimplemented!() }           // v.extend(b)
-#[verifier::external_body] pub fn digest(b: &[u8]) -> (r: Vec<u8>) ensures r@ == dig(b@) { unimplemented!() }
-#[verifier::external_body] pub fn from_random_bytes(b: &Vec<u8>) -> (r: Option<G1Affine>) ensures r == frb(b@) { unimplemented!() }
-#[verifier::external_body] pub fn mul_by_cofactor_to_group(g: G1Affine) -> (r: G1) ensures r@ == cof(g) { unimplemented!() }
-#[verifier::external_body] pub fn ctr_inc_u64(j: &mut u64) ensures *final(j) == *old(j) + 1 { unimplemented!() }      // j += 1 (assumption: fewer than 2^64 retries)
-// ---- specification ----
-// attempt 0 hashes PROTOCOL_NAME || i, attempt t >= 1 hashes PROTOCOL_NAME || i || (t - 1): EVERY attempt depends on the index i
-pub open spec fn attempt(i: u64, t: nat) -> Option<G1Affine> { if t == 0 { frb(dig(pname() + le8(i))) } else { frb(dig(pname() + le8(i) + le8((t - 1) as u64))) } }
-pub open spec fn first_hit(i: u64, t: nat) -> bool { attempt(i, t) is Some && forall|t2: nat| t2 < t ==> attempt(i, t2) is None }
-pub open spec fn ipa_gen(i: nat) -> AS { let t = choose|t: nat| #[trigger] first_hit(i as u64, t); cof(attempt(i as u64, t)->Some_0) }
-pub proof fn lemma_first_hit_unique(i: u64, t: nat)
-    requires first_hit(i, t)
-    ensures ipa_gen(i as nat) == cof(attempt(i, t)->Some_0)
-{
-    let t0 = choose|t0: nat| #[trigger] first_hit(i as nat as u64, t0);
-    assert(first_hit(i, t));
-    if t0 < t { assert(attempt(i, t0) is None); } else if t < t0 { assert(attempt(i, t) is None); }
-}
+//@use h2c
+//@spec h2c_spec
+pub open spec fn ipa_gen(i: nat) -> AS { h2c_gen(i) }
 
 impl UniversalParams {
 //@fn id=ipa.UniversalParams.max_degree file=poly-commit/src/ipa_pc/data_structures.rs scope="impl<G: AffineRepr> PCUniversalParams for UniversalParams<G>" name=max_degree props=C09
